@@ -494,3 +494,5 @@ func Bubble(t *testing.T, f func()) (panicked any) {
 	}
 	return panicked
 }
+
+func settle() { synctest.Wait() }
